@@ -15,6 +15,8 @@ import gen_comp
 import extract_comp as X
 import c01
 import c08
+import c12_cfg
+import c12_routes
 
 import autofit as af
 from autofit.mapper.model import ModelInstance
@@ -44,7 +46,9 @@ def inferred(rng, n):
         elif r < 0.33:
             out.append(0.0)
         elif r < 0.40:
-            out.append(rng.choice([1e-300, -1e-300, 1e300, -1e300, 1e-12, -1e12]))
+            # tiny, huge, and the edges of the float format: subnormal, smallest normal, largest finite, -0.0
+            out.append(rng.choice([1e-300, -1e-300, 1e300, -1e300, 1e-12, -1e12, 5e-324, -5e-324, 2.2250738585072014e-308,
+                                   1.7976931348623157e308, -1.7976931348623157e308, -0.0]))
         else:
             out.append(rng.uniform(-5, 60))
     return out
@@ -141,7 +145,14 @@ def one_case(ctx, prog, label="gen", explicit_wm=None):
         {"k": "uniform", "b": rng.choice([0.5, 3.0])},
         {"k": "with_limits"},
         {"k": "replacing"},
+        # the same through a Result (vector stored by path in a sample and read back)
+        {"k": "means", "via": "result"},
+        {"k": "means", "a": rng.choice([0.5, 2.0, 1e-3]), "via": "result"},
+        {"k": "means", "r": rng.choice([0.5, 0.1, 2.0]), "via": "result"},
+        {"k": "uniform", "b": rng.choice([0.5, 3.0]), "via": "result"},
     ]
+    if ctx.tier != "quick" or label != "gen" or ctx.rng.random() < 0.5:
+        c12_routes.kwargs_case(ctx, model, comp, xs, {"program": prog, "mode": {"k": "kwargs"}, "inferred": xs, "label": label, "explicit_wm": explicit_wm})
     if ctx.tier == "quick":
         modes = [modes[0]] + rng.sample(modes[1:], 3)
     if label != "replay" and rng.random() < 0.35:
@@ -152,15 +163,17 @@ def one_case(ctx, prog, label="gen", explicit_wm=None):
         ctx.case({"comp": comp, "mode": mode, "xs": [f2h(x) for x in xs]}, nontrivial=nontrivial,
                  sample={"program": gen_comp.program_text(prog)[-300:], "mode": mode, "inferred": xs[:6]})
         ctx.hit("mode:" + mode["k"] + ("+" + "".join(k for k in ("a", "r", "no_limits") if k in mode) if mode["k"] == "means" else ""))
+        if mode.get("via"):
+            ctx.hit("route:" + mode["via"] + ":" + mode["k"])
         lims = None
         repl = None
         try:
             if mode["k"] == "means":
-                new = model.mapper_from_prior_means(xs, a=mode.get("a"), r=mode.get("r"), no_limits=mode.get("no_limits", False))
+                new = c12_routes.passed_means(model, xs, mode)
             elif mode["k"] == "uniform":
                 xs_u = [max(min(x, 1e12), -1e12) for x in xs]  # x - b < x + b must be representable
                 case["inferred"] = xs_u
-                new = model.mapper_from_uniform_floats(xs_u, b=mode["b"])
+                new = c12_routes.passed_uniform(model, xs_u, mode)
             elif mode["k"] == "with_limits":
                 lims = []
                 for p, x in zip(priors, xs):
@@ -221,7 +234,7 @@ def one_case(ctx, prog, label="gen", explicit_wm=None):
             if not ok:
                 ctx.fail("C12-wrong-prior", f"prior at path {'.'.join(key)} is not the one derived from the value inferred for that path", case,
                          {"path": key, "got": readable(g), "expected_one_of": [readable(e) for e in exp_by_rank[j]][:3], "inferred": xs[j]})
-            if g["kind"] in ("Gaussian", "LogGaussian") and g.get("sigma") is not None and h2f(g["sigma"]) < 0:
+            if g["kind"] in ("Gaussian", "LogGaussian") and g.get("sigma") is not None and not (h2f(g["sigma"]) >= 0):
                 ctx.fail("C12-negative-width", "prior passing produced a negative width", case, readable(g))
             if mode["k"] in ("means", "uniform") and got.id != p.id:
                 ctx.fail("C12-id-not-kept", "the new prior does not keep the id of the parameter it replaces", case, {"path": key})
@@ -243,9 +256,11 @@ def one_case(ctx, prog, label="gen", explicit_wm=None):
             if gl is not None:
                 c["glo"], c["ghi"] = f2h(gl[0]), f2h(gl[1])
             cfgs.append(c)
-        if skip:
+        if skip and CHAIN is None:
             ctx.hit("correspondence-skipped-ambiguous-config")
             continue
+        if skip:
+            ctx.hit("shared-prior-differently-configured-places")
         wire_mode = {"k": mode["k"]}
         for k in ("a", "r", "b"):
             if k in mode:
@@ -253,10 +268,31 @@ def one_case(ctx, prog, label="gen", explicit_wm=None):
         if "no_limits" in mode:
             wire_mode["no_limits"] = True
         pairs = [[f2h(l[0]), f2h(l[1])] for l in lims] if lims else [[f2h(x), f2h(0.0)] for x in xs_eff]
-        ans = ctx.lean.ask({"p": "C12", "comp": comp, "mode": wire_mode, "olds": olds, "cfgs": cfgs, "xs": pairs})
-        if "driver_error" in ans:
+        # the configuration of every parameter is looked up by the model itself (generated tables + look-up
+        # order of the library), from the class and attribute name of the parameter's place
+        places = []
+        for p in priors:
+            cp = c12_cfg.candidate_places(model, p)
+            places.append(c12_cfg.place_wire(*(cp[0] if cp else (ModelInstance, "")), p))
+        req = {"p": "C12", "comp": comp, "mode": wire_mode, "olds": olds, "xs": pairs}
+        if mode.get("via") == "result":
+            req["via_kwargs"] = True
+        if CHAIN is not None:
+            # class and attribute name of every parameter are derived by the model from the composition
+            req["classes"], req["owns"], req["chain"] = c12_cfg.class_table(), [pl.get("own") for pl in places], CHAIN
+        else:
+            req["cfgs"] = cfgs
+        ans = ctx.lean.ask(req)
+        if "driver_error" in ans or ans.get("key_error"):
             ctx.disagree("driver", case, None, ans)
             continue
+        if CHAIN is not None:
+            lib_classes = c12_cfg.library_classes(model, priors)
+            if [k[0] for k in ans["place_keys"]] != lib_classes:
+                ctx.disagree("C12.place.class", case, lib_classes[:8], [k[0] for k in ans["place_keys"]][:8])
+                continue
+        if not ans.get("cfg_ok", True):
+            ctx.disagree("C12.config-readable", case, "passing succeeded", "model: a configuration entry read here is malformed")
         new_priors = list(new.priors_ordered_by_id)
         if len(new_priors) == len(ans["new"]):
             for j, (np_, md) in enumerate(zip(new_priors, ans["new"])):
@@ -371,16 +407,33 @@ def expected(model, p, x, mode, lim, repl):
     return out
 
 
+CHAIN = None  # names of the generated configuration tables along the library's chain (set by setup_config)
+SCRATCH = None
+
+
+def setup_config(ctx):
+    """tie the generated configuration tables to what the library loaded; from then on the model looks the
+    configuration of every place up itself"""
+    global CHAIN, SCRATCH
+    from autoconf import conf
+    SCRATCH = conf.instance.paths[0]
+    CHAIN = c12_cfg.check_tables(ctx)
+
+
 def run(ctx):
     ctx.rule = RULE
     ctx.assumptions = [
-        "width modifiers / gaussian limits come from harness/config/priors/vlib.yaml (both modifier kinds, finite and infinite limits); "
-        "a shared prior whose places are configured differently may take the configuration of any of its places",
-        "result.model / model_absolute / model_relative / model_bounded call the methods exercised here with the result's medians",
+        "width modifiers / gaussian limits come from harness/config/priors/vlib.yaml (both modifier kinds, finite and infinite limits) and are "
+        "looked up by the Lean model in tables generated from the files the library loaded; the property oracle lets a shared prior whose places "
+        "are configured differently take the configuration of any of its places, the correspondence pins the library's choice exactly",
+        "Result.model / model_absolute / model_relative / model_bounded are exercised through a SamplesSummary built from path-keyed samples "
+        "(median and maximum-likelihood vectors given different values); copy_with_fixed_priors / take_attributes are not exercised",
     ]
+    setup_config(ctx)
     for f in sorted((VERIF / "corpus" / "C12").glob("*.json")):
         c = json.loads(f.read_text())
         one_case(ctx, c["program"], label=f.name)
+    c12_cfg.lookup_cases(ctx, SCRATCH, ctx.n(400, 6000))
     for _ in range(ctx.n(160, 3000)):
         prog = gen_comp.gen_program(ctx.rng, allow_pow=False)
         one_case(ctx, prog)
@@ -388,6 +441,9 @@ def run(ctx):
 
 def replay(ctx, payload):
     case = payload.get("case") or payload.get("disagreements", [{}])[0].get("case")
+    setup_config(ctx)
+    if "lookup" in case:
+        return c12_cfg.replay_lookup(ctx, SCRATCH, case["lookup"])
     if "result_questions" in case:
         model = gen_comp.run_program(case["program"])["root"]
         return result_wrappers(ctx, case["program"], model, case["inferred"], "replay")
